@@ -9,7 +9,8 @@ PROPS["C07"] = P(
     "Strata: every n in 0..=300 for each shard/edge logic; all hint kinds at n in 0,1,2,3,10,100,101,1000,10^4 with default knobs; regime edges 99/100/101/49999/50000/99999/100000/100001/200000 "
     "(thorough: 199999/399999/400000/799999/800000/800001/1.5M) x logic x hint; multi-shard sizes x thread count x low_mem x too-small hint; every variant x value kind x n in 0,1,2,7,64,1000,20000; "
     "thorough UBC only: 12M (two logics), 3M and 1.5M offline; random configurations on top. Debug builds stay at n <= 200000, ASAN/TSAN at n <= 100000. "
-    "distinct_nontrivial = number of distinct (variant | stratum group | n class | hint kind | value kind | store) cells whose build succeeded on n >= 2 keys and had all pairs checked",
+    "distinct_nontrivial = number of distinct (variant | stratum group | n class | hint kind | value kind | store) cells whose build succeeded on n >= 2 keys and had all pairs checked"
+    ' Key type &[u32] (slices of multi-byte elements sharing their first bytes); the 800 000-key regime switch in the quick tier. ',
     dict(builds=["DBG", "UBC"]),
     dict(builds=["DBG", "UBC", "ASAN", "TSAN"], shards={"DBG": 6, "UBC": 6, "ASAN": 2, "TSAN": 2}),
     hang="violation",
